@@ -1698,6 +1698,185 @@ def check_no_raise(ctx, clock, frames, world=None):
     ctx.cover("gn_data_indicate_frames" + ("_secured" if world is not None else ""), len(frames))
 
 
+# ------------------------------------------------------------------------------------------------ (x) header classes
+
+# Extended-header length per (HT, HST) by the packet layouts of EN 302 636-4-1 clause 9.8 (NOT read from the code):
+# Beacon = SO PV (24); SHB = SO PV + 4 media-dependent; TSB = SN + reserved + SO PV; GBC / GAC = SN + reserved + SO PV +
+# area (lat, lon, a, b, angle, reserved = 16); GUC / LS Reply = SN + reserved + SO PV + DE short PV (20);
+# LS Request = SN + reserved + SO PV + sought GN_ADDR (8).
+EXT_LEN = {(1, 0): 24, (2, 0): 48, (3, 0): 44, (3, 1): 44, (3, 2): 44, (4, 0): 44, (4, 1): 44, (4, 2): 44,
+           (5, 0): 28, (5, 1): 28, (6, 0): 36, (6, 1): 48}
+# Scope (finding C04-R6-SHB, unchanged code): Router.gn_data_indicate_shb decodes packet[0:24] and takes packet[28:] as
+# the payload without looking at the 4 media-dependent octets, so an SHB frame cut INSIDE that field (24..27 of 28
+# octets, nothing behind) is accepted (LocTE created, empty payload indicated).  The oracle therefore demands the
+# discard of an SHB only below the end of its SO PV; the four lengths are still generated and reported as coverage
+# (`hdrclass_shb_media_dependent_cut_accepted`).
+MUST_HAVE = {**EXT_LEN, (5, 0): 24}
+
+
+def so_offset(ht, hst):
+    return 12 if ht == 1 or (ht, hst) == (5, 0) else 16
+
+
+def must_discard(frame, own):
+    """independent oracle, unsecured GN packets (version 1, Basic NH = Common Header) only: the reason why the frame
+    MUST be discarded without trace, or None when this oracle makes no claim.  `own` = encoded itsGnLocalGnAddr."""
+    if len(frame) < 1 or frame[0] != 0x11:
+        return None
+    if len(frame) < 12:
+        return f"cut inside the Basic / Common Header ({len(frame)} of 12 octets)"
+    key = (frame[5] >> 4, frame[5] & 0x0F)
+    if key not in EXT_LEN:
+        return None
+    need = EXT_LEN[key]
+    if len(frame) < 12 + MUST_HAVE[key]:
+        return f"cut inside the extended header ({len(frame) - 12} of {need} octets, nothing behind)"
+    if len(frame) < 12 + need:
+        return None                                     # SHB media-dependent field cut: no claim (C04-R6-SHB)
+    if frame[3] > frame[10]:
+        return f"RHL {frame[3]} above MHL {frame[10]}"
+    off = so_offset(*key)
+    if frame[off:off + 8] == own:
+        return "source GN_ADDR is the station's own address (itsGnLocalGnAddr)"
+    return None
+
+
+def typed_frames(clock, own, idx):
+    """one well-formed unsecured frame per packet type, source = station `idx` (its real SO PV), built by header layout
+    around the CAM / DENM that station emits.  GUC / LS packets are addressed to the receiver `own`."""
+    with rs.quiet():
+        a = st_mod.Station(idx, clock, with_ldm=False)
+        cam = st_mod.emit_cam(a, clock)[0]
+        denm = st_mod.emit_denm(a, clock)[0]
+    so, pay = cam[12:36], cam[40:]
+    other = so[:7] + bytes([(so[7] + 0x40) & 0xFF])
+
+    def hdr(ht, hst, hl, pl, nh=2):
+        return cam[:3] + bytes([hl]) + bytes([nh << 4, (ht << 4) | hst, cam[6], cam[7]]) + pl.to_bytes(2, "big") \
+            + bytes([hl, 0])
+
+    def sn(i):
+        return bytes([0x20 + i, idx & 0xFF, 0, 0])
+    out = [("beacon", hdr(1, 0, 1, 0, nh=0) + so), ("shb", cam),
+           ("tsb", hdr(5, 1, 5, len(pay)) + sn(1) + so + pay),
+           ("guc", hdr(2, 0, 5, len(pay)) + sn(2) + so + own + so[8:20] + pay),
+           ("ls-request", hdr(6, 0, 5, 0, nh=0) + sn(3) + so + own),
+           ("ls-request-other", hdr(6, 0, 5, 0, nh=0) + sn(4) + so + other),
+           ("ls-reply", hdr(6, 1, 5, 0, nh=0) + sn(5) + so + own + so[8:20])]
+    for ht, name in ((4, "gbc"), (3, "gac")):
+        for hst, shape in ((0, "circle"), (1, "rect"), (2, "ellipse")):
+            # distance b := distance a for rectangle / ellipse (the DENM's circle has b = 0: a zero-sized area)
+            out.append((f"{name}-{shape}", denm[:5] + bytes([(ht << 4) | hst]) + denm[6:12] + sn(6 + 3 * (ht - 3) + hst)
+                        + denm[16:50] + (denm[48:50] if hst else denm[50:52]) + denm[52:]))
+    return out
+
+
+def header_class_mutants(ctx, tag, g, own):
+    """the three classes per packet type: cut at EVERY length inside the headers; own source address; RHL above MHL"""
+    key = (g[5] >> 4, g[5] & 0x0F)
+    for n in range(0, 12 + EXT_LEN[key]):
+        yield "truncated", g[:n]
+    off = so_offset(*key)
+    yield "own-address", g[:off] + own + g[off + 8:]
+    yield "own-address", g[:off] + own + g[off + 8:12 + EXT_LEN[key]]          # ... and no payload
+    mhl = g[10]
+    for rhl, m in ((mhl + 1, mhl), (255, mhl), (255, 1), (2, 1), (1, 0), (255, 254), (ctx.rng.randrange(2, 256), 1)):
+        if rhl > m:
+            yield "rhl-above-mhl", g[:3] + bytes([rhl]) + g[4:10] + bytes([m]) + g[11:]
+
+
+def _feed_all(clock, frames):
+    pr = Probe(clock)
+    r = None
+    for f in frames:
+        r = pr.feed(f)
+    return pr, r
+
+
+def must_discard_case(clock, setup, bad, good, ref=None):
+    """[setup.., bad, good] against [setup.., good] on fresh unsecured stations -> (violated, text).
+    bad MUST be discarded (must_discard): nothing indicated / delivered / sent, location table (neighbours included)
+    as before; good is then processed exactly as without bad."""
+    pr, _ = _feed_all(clock, setup)
+    own = pr.stn.gn.mib.itsGnLocalGnAddr.encode()
+    why = must_discard(bad, own)
+    if why is None:
+        return False, "out of scope: the oracle does not require this frame to be discarded", None
+    before, inds0 = pr.state(), pr.n_inds()
+    rb = pr.feed(bad)
+    after = pr.state()
+    trace = []
+    if pr.n_inds() > inds0 or rb[4]:
+        trace.append(f"indicated to the upper layer ({len(rb[4])} BTP deliveries)")
+    if pr.last_sent:
+        trace.append(f"{len(pr.last_sent)} GN-PDU(s) sent")
+    if after != before:
+        b0, a0 = {e[0]: e for e in before[0]}, {e[0]: e for e in after[0]}
+        gained = sorted(set(a0) - set(b0))
+        chg = sorted(k for k in a0 if k in b0 and a0[k] != b0[k])
+        nb = (sum(1 for e in before[0] if e[4]), sum(1 for e in after[0] if e[4]))
+        trace.append("location table changed (" + "; ".join(
+            ([f"gained {[g[-12:] for g in gained]}" + (" = the station's OWN address" if own.hex() in gained else "")]
+             if gained else []) + ([f"entries rewritten {[c[-12:] for c in chg]}"] if chg else [])
+            + [f"neighbours {nb[0]} -> {nb[1]}"]) + ")")
+    if ref is None:
+        p0, r0 = _feed_all(clock, list(setup) + [good])
+        ref = ((r0[0], type(r0[1]).__name__, r0[4], list(p0.last_sent)), p0.state())
+    rg = pr.feed(good)
+    got = ((rg[0], type(rg[1]).__name__, rg[4], list(pr.last_sent)), pr.state())
+    if got != ref:
+        diff = [n for n, x, y in zip(("outcome", "exception", "deliveries", "GN-PDUs sent"), got[0], ref[0]) if x != y]
+        if got[1] != ref[1]:
+            diff.append("location table")
+        trace.append(f"the complete frame behind it is not processed as if it had never arrived: {got[0][0]}, "
+                     f"{len(got[0][2])} deliveries vs {ref[0][0]}, {len(ref[0][2])} alone (differs in {', '.join(diff)})")
+    if trace:
+        return True, f"{why}: not discarded without trace [{rb[0]}]: " + "; ".join(trace), ref
+    return False, f"{why}: discarded without trace [{rb[0]}], frame behind it processed as alone", ref
+
+
+def check_header_classes(ctx, clock):
+    """(x) every packet type x {cut at every length inside its headers, own source address, RHL > MHL}: discarded
+    without trace, and the complete / well-formed frame of the same (source, SN) afterwards processed as alone.
+    Seeded classes C04-m10 (length guard of one extended header relaxed), -m11 (DAD behind the LocTE update in one
+    handler), -m12 (one handler dispatched in front of the hop-limit check)."""
+    own = Probe(clock).stn.gn.mib.itsGnLocalGnAddr.encode()
+    with rs.quiet():
+        neighbour = st_mod.emit_cam(st_mod.Station(0x19, clock, with_ldm=False), clock)[0]
+    n, reported = 0, set()
+    for tag, g in typed_frames(clock, own, 0x17):
+        if must_discard(g, own) is not None:
+            raise Infra(f"typed frame {tag} is not well-formed by the layout oracle")
+        refs = {}
+        muts = list(header_class_mutants(ctx, tag, g, own))
+        seen = set()
+        for cls, b in muts:
+            if b in seen:
+                continue
+            seen.add(b)
+            # histories: empty location table AND one with a neighbour (truncations: alternate, others: both)
+            setups = [(neighbour,), ()] if cls != "truncated" else [(neighbour,) if len(b) % 2 else ()]
+            if ctx.thorough:
+                setups = [(neighbour,), ()]
+            if must_discard(b, own) is None:
+                ctx.cover(f"hdrclass_{tag}_media_dependent_cut_accepted")
+                continue
+            for setup in setups:
+                viol, text, refs[setup] = must_discard_case(clock, list(setup), b, g, refs.get(setup))
+                n += 1
+                ctx.evals(2)
+                ctx.cover(f"hdrclass_{tag}_{cls}")
+                ctx.nontrivial(("hdrclass", tag, cls, len(b) if cls == "truncated" else b[3:11:7].hex(), bool(setup), viol))
+                if viol and (tag, cls) not in reported:
+                    reported.add((tag, cls))
+                    ctx.violation(f"{tag} frame, {cls}: {text}",
+                                  {"kind": "mustdiscard", "setup": [x.hex() for x in setup], "bad": b.hex(),
+                                   "good": g.hex()})
+        ref = refs.get(()) or refs.get((neighbour,))
+        ctx.cover(f"hdrclass_{tag}_alone_{ref[0][0]}_{len(ref[0][2])}delivered_{len(ref[0][3])}sent")
+    ctx.cover("header_class_cases", n)
+
+
 # ------------------------------------------------------------------------------------------------ entry points
 
 
@@ -1735,7 +1914,10 @@ def run(ctx):
                          "the real RawLinkLayer.receive / C-V2X loop (5 facility wirings unsecured, 3 with security enabled); "
                          "stdout fault injection; histories [discarded frame, forwarded frame] per configuration, mixed "
                          "secured/unsecured loops, Location-Service histories (reply PV age at the itsGnLifetimeLocTE "
-                         "boundaries), C-V2X radio frames of 0/1/2 octets, all loops under a watchdog. distinct_nontrivial = distinct (configuration, outcome, length bucket, "
+                         "boundaries), C-V2X radio frames of 0/1/2 octets, all loops under a watchdog; round 6: one well-formed frame per "
+                         "packet type (beacon, SHB, TSB, GUC, LS request/reply, GBC and GAC x 3 shapes) built by header layout, x {cut at "
+                         "EVERY length inside its headers, own source GN_ADDR, RHL above MHL}, judged by a layout oracle independent "
+                         "of the code: discarded without trace, complete frame behind it processed as alone. distinct_nontrivial = distinct (configuration, outcome, length bucket, "
                          "HT/HST) classes, distinct secured-mutant effects, pairs, streams and fault cases")
     check_generated_facts(ctx)
     elog = ExcLog(ctx)
@@ -1743,7 +1925,7 @@ def run(ctx):
         corp = [bytes.fromhex(c["frame"]) for _, c in corpus("C04") if "frame" in c]
         import contextlib
         for name, c in corpus("C04"):
-            if c.get("kind") in ("pair", "stdout-fault", "mac", "history", "lshist", "cv2x"):
+            if c.get("kind") in ("pair", "stdout-fault", "mac", "history", "lshist", "cv2x", "mustdiscard"):
                 with contextlib.redirect_stdout(io.StringIO()):
                     bad = replay(ctx, {"case": c})
                 ctx.evals()
@@ -1762,6 +1944,7 @@ def run(ctx):
         timed(ctx, "stdout_faults", check_stdout_faults, ctx, clock)
         timed(ctx, "loop_guard", check_loop_guard, ctx, clock)
         timed(ctx, "mac", check_mac, ctx, clock)
+        timed(ctx, "header_classes", check_header_classes, ctx, clock)
         timed(ctx, "classify", check_classify, ctx, clock, frames, world, sec_frames, elog)
         timed(ctx, "model_driver", flush_model, ctx)
         timed(ctx, "secured_effect", check_secured_effect, ctx, clock, world, sec_mut, elog)
@@ -1791,6 +1974,9 @@ def search(ctx):
             check_cv2x_boundaries(ctx, clock)
             check_stdout_faults(ctx, clock)
             check_loop_guard(ctx, clock)
+            if ctx.violations:
+                return
+            check_header_classes(ctx, clock)
             if ctx.violations:
                 return
             bad0 = all_bad_frames(ctx, clock)
@@ -1837,6 +2023,11 @@ def replay(ctx, obj):
                                       [bytes.fromhex(x) for x in case["prefix"]], bytes.fromhex(case["good"]))
             print("prefix discarded without effect:", disc, "| good frame processed as alone:", same, text)
             return disc and not same
+        if kind == "mustdiscard":
+            viol, text, _ = must_discard_case(clock, [bytes.fromhex(x) for x in case.get("setup", [])],
+                                              bytes.fromhex(case["bad"]), bytes.fromhex(case["good"]))
+            print(text)
+            return viol
         if kind == "mixedloop":
             world = replay_world(case, clock)
             seq = [(t, bytes.fromhex(x)) for t, x in case["stream"]]
